@@ -40,23 +40,41 @@ CONTINUOUS = {"noisy_factory", "noisy_factory_square", "noisy_factory_exp", "noi
               "xos12", "xs", "oxs", "xos_norm_additive", "xos2_norm_additive"}
 
 
-class Recorder:
-    """Wraps the instance's generator callable; records every hidden game it hands out."""
+OFFSETS = (0.0, 0.0, 0.0, -1e6, -3e5)      # negative stand-alone worths keep both classes (superadditive, SAM)
 
-    def __init__(self, fn):
+
+class Recorder:
+    """Wraps the instance's generator callable; records every hidden game it hands out.
+
+    With scale != 1 the generated game is re-expressed in other units (values multiplied by `scale`, handed out as a
+    value-table game): the env must behave identically for games in tiny or huge units."""
+
+    def __init__(self, fn, scale: float = 1.0, offset: float = 0.0):
         self.fn = fn
+        self.scale = scale
+        self.offset = offset          # adds an additive game with stand-alone worths ~offset (class is preserved)
         self.games: list[list[float]] = []
 
     def __call__(self):
         g = self.fn()
+        if self.scale != 1.0 or self.offset:
+            from incomplete_cooperative.game import IncompleteCooperativeGame
+            n = g.number_of_players
+            vals = np.array(g.get_values(), dtype=np.float64) * self.scale
+            if self.offset:
+                ids = np.arange(1 << n)
+                for i in range(n):
+                    vals = vals + np.where(ids >> i & 1, self.offset * (1 + i / 8), 0.0)
+            g = IncompleteCooperativeGame(n)
+            g.set_values(vals)
         self.games.append([float(x) for x in g.get_values()])
         return g
 
 
-def build_env(n, gen_name, comp, gapname, budget, seed):
+def build_env(n, gen_name, comp, gapname, budget, seed, scale: float = 1.0, offset: float = 0.0):
     inst = ModelInstance(number_of_players=n, game_class=comp, game_generator=gen_name, gap_function=gapname,
                          run_steps_limit=budget, seed=seed)
-    rec = Recorder(inst.game_generator_fn)
+    rec = Recorder(inst.game_generator_fn, scale, offset)
     inst.game_generator_fn = rec           # get_env() reads this attribute
     env = inst.get_env()
     return env, rec
@@ -94,8 +112,8 @@ def compare(ctx, case, env, sh: Shadow, ret, op: str, action=None) -> bool:
     """All C09 clauses on the state after `op`. Returns non-trivial flag."""
     n = sh.n
     inc = env.incomplete_game
-    scale = max(1.0, float(np.max(np.abs(np.array(sh.values)))))
-    tol = 1e-9 * (1.0 + scale * (1 << n))
+    scale = float(np.max(np.abs(np.array(sh.values))))
+    tol = sut.gap_tol(n, scale)
 
     def bad(mech, msg):
         c = dict(case)
@@ -164,7 +182,7 @@ def drive(ctx, case) -> None:
     """case: n, generator, computer, gap, budget, seed, script = list of ['reset'] | ['step', a] | ['unstep', a]."""
     n = case["n"]
     try:
-        env, rec = build_env(n, case["generator"], case["computer"], case["gap"], case["budget"], case["seed"])
+        env, rec = build_env(n, case["generator"], case["computer"], case["gap"], case["budget"], case["seed"], case.get("scale", 1.0), case.get("offset", 0.0))
     except Exception as exc:
         ctx.violation("env-construction-raised", f"{type(exc).__name__}: {exc} ({case['generator']}, n={n})", case)
         return
@@ -270,7 +288,8 @@ def run(ctx) -> None:
                 script.append(["step", a])
             script += [["unstep", order[-1]], ["step", order[-1]], ["unstep", order[0]], ["step", order[0]]]
         drive(ctx, {"n": 3, "generator": g, "computer": comp, "gap": rng.choice(list(GAP_FUNCTIONS)),
-                    "budget": rng.choice([None, None, 1, 2, 3]), "seed": rng.randint(0, 10**6), "script": script})
+                    "budget": rng.choice([None, None, 1, 2, 3]), "seed": rng.randint(0, 10**6), "script": script,
+                    "scale": rng.choice(sut.SCALES), "offset": rng.choice(OFFSETS)})
         ctx.count("n3_all_orders_envs")
         if comp.startswith("sam"):
             ctx.count("sam_envs")
@@ -295,7 +314,7 @@ def run(ctx) -> None:
                     done_set.remove(a)
                     script.append(["unstep", a])
         drive(ctx, {"n": n, "generator": g, "computer": comp, "gap": gapname, "budget": budget,
-                    "seed": rng.randint(0, 10**6), "script": script})
+                    "seed": rng.randint(0, 10**6), "script": script, "scale": rng.choice(sut.SCALES), "offset": rng.choice(OFFSETS)})
         ctx.count(f"n{n}_envs")
         if budget is not None:
             ctx.count("budget_envs")
